@@ -267,4 +267,3 @@ func scnStores(rep *Report, rng *Rng, tier string, outdir string) {
 	}
 	cf.Flush()
 }
-
